@@ -609,7 +609,12 @@ impl ObjValue {
 				}
 			};
 		}
-		let result = self.get_idx_uncached(key, core);
+		// Computing a field is a frame of its own: a chain of field reads over freshly built objects
+		// (`local f(x) = { v: f(x + 1).v }; f(0).v`) never nests function calls, and would otherwise
+		// recurse until the memory is exhausted instead of hitting the stack limit.
+		let result = crate::stack::check_depth()
+			.map_err(Into::into)
+			.and_then(|_guard| self.get_idx_uncached(key, core));
 		{
 			let mut cache = self.0.value_cache.borrow_mut();
 			cache.insert(cache_key, CacheValue::Cached(result.clone()));
